@@ -236,11 +236,15 @@ func runsFor(prop, tier string) []run {
 		mk := func(rf int, init []string) eb.Cfg {
 			return eb.Cfg{RF: rf, N: rf, Alphabet: alpha, Oracles: or, Drain: false, MaxWrites: 2, MaxSnaps: 2, MaxAdds: 2, MaxRestarts: 1, MaxFaults: 3, InitOps: init}
 		}
+		// the add-time snapshot is a volume snapshot too: it fails on one replica in service
+		addf := mk(3, rw2)
+		addf.Alphabet = []string{"AddSnapF", "Add", "Sync", "Verify", "W0", "Snap", "MonWake", "Remove"}
 		return []run{
 			{"rf3-from-3rw", mk(3, rw3), pick(4, 6), minutes(pickf(1, 6))},
 			{"rf3-from-2rw+wo", mk(3, rw2wo), pick(4, 6), minutes(pickf(0.8, 5))},
 			{"rf2-from-2rw", mk(2, rw2), pick(5, 7), minutes(pickf(0.6, 4))},
 			{"rf2-from-1rw+wo", mk(2, rw1wo), pick(5, 7), minutes(pickf(0.6, 4))},
+			{"rf3-add-time-snapshot-fails", addf, pick(4, 6), minutes(pickf(0.5, 4))},
 		}
 	case "C18":
 		alpha := []string{"Reg", "Start", "StartWrong", "Add", "AddDup", "Sync", "Verify", "VerifyAny", "W", "R", "Snap", "MonFail", "MonWake", "Remove", "RemoveUnknown", "ERR", "RW", "Restart"}
